@@ -1,0 +1,10 @@
+//go:build verif
+
+package parser
+
+// VerifPending exposes the size of the pending-token queue and the depth of the
+// indentation stack to the verification harness (coverage evidence). It is
+// compiled only with the "verif" build tag.
+func (ial *IndentAwareLexer) VerifPending() (pendingTokens int, indentDepth int) {
+	return ial.pendingTokens.Size(), ial.indents.Size()
+}
